@@ -604,6 +604,17 @@ func genPlan(g *prng, flavour string) sessPlan {
 			p.ops = append(p.ops, op)
 		}
 		if g.chance(1, 3) {
+			// several compressed calls of ONE endpoint in flight together: whatever state the compressors keep per
+			// connection is used by all of them between compressing and handing the frame over
+			ct := []int{1, 1, 2}[g.intn(3)]
+			for i := range p.ops {
+				p.ops[i].kind, p.ops[i].ctype = "callc", ct
+				p.ops[i].method = []string{"echo", "echo", "hold"}[g.intn(3)]
+				p.ops[i].cancel = false
+				p.ops[i].pad = 8 + g.intn(8)
+			}
+		}
+		if g.chance(1, 3) {
 			p.closer = fmt.Sprintf("ext%d", 1-ep)
 			p.closers = 1
 		}
